@@ -138,14 +138,23 @@ CHECKS = {
     },
     "C14": {
         "level": "exploration",
-        "quick": {"shards": 16, "rounds": 1, "checks": 100, "timeout": 900},
-        "thorough": {"shards": 16, "rounds": 4, "checks": 500, "timeout": 3000},
-        "assumptions": [],
+        # every case runs in a child process of its own (real engines + replication managers over loopback TCP, 3-10 s each)
+        "quick": {"shards": 16, "rounds": 1, "checks": 3, "timeout": 1500},
+        "thorough": {"shards": 16, "rounds": 4, "checks": 5, "timeout": 3000},
+        "shrinktime": "150s",
+        "assumptions": [
+            "liveness is decided as bounded time: 60 s + 3 s per phase after the last write (the property's own 'tens of seconds on loopback'); measured convergence on a loaded machine is below 5 s",
+            "primary and replicas run in one child process (separate engines, directories and replication managers) and talk over loopback TCP; a replica restart is Manager.Stop + Engine.Close + reopen of the same directory + new manager, not a process kill",
+            "the verdict of a case depends on the schedule of the replica's 50 ms / 1 s state machine; a saved case is re-executed up to 3 times by the replay tier",
+            "a primary operation or a replica stop that does not return within 60 s / 30 s ends the case unjudged (counted as abandoned:*): a blocked primary is C15's subject",
+        ],
     },
     "C15": {
         "level": "exploration",
-        "quick": {"shards": 16, "rounds": 1, "checks": 100, "timeout": 900},
-        "thorough": {"shards": 16, "rounds": 4, "checks": 500, "timeout": 3000},
+        # every case runs in a child process of its own (5-40 s each)
+        "quick": {"shards": 16, "rounds": 1, "checks": 2, "timeout": 1500},
+        "thorough": {"shards": 16, "rounds": 5, "checks": 2, "timeout": 3000},
+        "shrinktime": "150s",
         "assumptions": [],
     },
     "C16": {
